@@ -206,6 +206,20 @@ def run(ctx):
             r3.check(bool(recvs_self) and wit_ is None, "server-record-always-updated", "every ParameterStatus updates the server connection's own parameter record",
                      "a ParameterStatus can be applied to the client's map only: the server connection's record goes stale, sync_parameters then sees no difference for the next client and its statements run with another client's value", "", wit_ and rc.describe_path(wit_))
             r3.check(all(const_int(c.args[3]) == 0 for c in sps), "not-startup", "ParameterStatus updates use startup=false (tracked parameters only)", "ParameterStatus updates are applied with startup=true")
+    # the record is what the server last reported, nothing else: apart from the ParameterStatus arm it is never rewritten - not wholesale either. (round 10: `back
+    # to the startup values` at check-in, also after a clean-up that sent no RESET ALL - the SETs sync_parameters left on the session stay in force, the record says
+    # they are gone, and the next client's sync sees nothing to do.) A whole-record write is accepted only where the clean-up for SET is known to have run
+    whole = []
+    for w_, blk_, st_ in F.field_writes(lambda ff, bb, ss: ff == "server_parameters"):
+        if not w_.name.startswith("pgcat::server::Server::") or w_.name.startswith("pgcat::server::Server::startup"):
+            continue
+        sT, _sF = field_bool_edges(w_, "needs_cleanup_set", switches(w_))
+        under_set = bool(sT) and w_.uncrossed_path([0], [blk_], edges=sT) is None
+        whole.append((w_.name.replace("pgcat::server::Server::", "").replace("::{closure#0}", ""), under_set))
+    badw = sorted(n_ for n_, ok_ in whole if not ok_)
+    r3.check(not badw, "record-rewritten-only-by-reports", "Server.server_parameters is assigned as a whole only when the connection is opened%s" % (" (and where needs_cleanup_set was found true: %s)" % [n_ for n_, ok_ in whole if ok_] if whole else ""),
+             "Server.server_parameters is overwritten in %s, not under `the session was reset (needs_cleanup_set)`: the record no longer says what the session's values are - values sync_parameters set for the "
+             "previous client stay in force while the record shows the defaults, the next client's sync sends no SET for them and its statements run under the previous client's TimeZone / DateStyle / ..." % badw)
     # who passes Some / None
     for fn, want in (("pgcat::client::Client::receive_server_message::{closure#0}", "Some"), ("pgcat::server::Server::query::{closure#0}", "None"),
                      ("pgcat::server::Server::register_prepared_statement::{closure#0}", "None")):
